@@ -63,9 +63,15 @@ def ValidHist : World → List Op → Prop
   | _, [] => True
   | w, op :: ops => op.Valid w ∧ ValidHist (w.step op).1 ops
 
-/-- the parse itself, as a function of the declarations, the allocator position and the input only -/
+/-- the parse as the world runs it now — with the registry cache as it is, the parser's forward references resolved
+or not, the wrapper bound to whatever parser `apply_for` handed it -/
 def World.callResult (w : World) (target wrapper bump : Nat) (input : Val) (ro : ROpts := {}) : Res × St :=
-  callWith effectiveOpts ro w.env target wrapper (entriesOf input).1 (entriesOf input).2 { next := w.next + bump }
+  w.callP effectiveOpts target wrapper bump input ro
+
+/-- the parse as the *declarations alone* define it (a process that has seen nothing): the registry answers from its
+registrations, the parser resolves its forward references now, a wrapper parses with the options of its decoration -/
+def World.callSpec (w : World) (target wrapper bump : Nat) (input : Val) (ro : ROpts := {}) : Res × St :=
+  callWith declaredOpts sel false ro w.env target wrapper (entriesOf input).1 (entriesOf input).2 { next := w.next + bump }
 
 /-! ### copy_value and defaults -/
 
@@ -139,7 +145,7 @@ theorem C19_call_frame (w : World) (target wrapper bump : Nat) (input : Val) (ro
     (∀ i ∈ r.2.writes, w.next + bump ≤ i ∧ i < r.2.next) ∧
     (∀ v, r.1 = .ok v → ∀ i ∈ v.mutIds,
         i ∈ input.mutIds ∨ i ∈ w.env.leak ++ ro.opqIds ∨ (w.next + bump ≤ i ∧ i < r.2.next)) := by
-  have h := callWith_fr effectiveOpts ro w.env (input.mutIds ++ (w.env.leak ++ ro.opqIds))
+  have h := callWith_fr effectiveOpts w.proc.resolve (w.proc.resolved.contains target) ro w.env (input.mutIds ++ (w.env.leak ++ ro.opqIds))
     (fun i hi => List.mem_append_right _ (List.mem_append_left _ hi))
     (fun i hi => List.mem_append_right _ (List.mem_append_right _ hi))
     target wrapper (entriesOf input).1 (entriesOf input).2
@@ -150,7 +156,7 @@ theorem C19_call_frame (w : World) (target wrapper bump : Nat) (input : Val) (ro
     · simp at h'
     · exact h'
   · intro v hv i hi
-    have := h.out i (by unfold World.callResult at hv; rw [hv]; exact hi)
+    have := h.out i (by unfold World.callResult World.callP at hv; rw [hv]; exact hi)
     rcases this with h' | h'
     · rcases List.mem_append.mp h' with h'' | h''
       · exact Or.inl h''
@@ -164,28 +170,13 @@ theorem leak_sub_declIds (E : Env) : ∀ i ∈ E.leak, i ∈ E.declIds := by
   obtain ⟨v, hv, h⟩ := mem_opqIdsL.mp hi
   exact mem_mutIdsL.mpr ⟨v, hv, opqIds_sub_mutIds v i h⟩
 
-theorem rootVals_append (env : Env) (n : Nat) (rs : List (Option Val)) (v : Val) :
-    ({ env := env, next := n, roots := rs ++ [some v] } : World).rootVals
-      = ({ env := env, next := n, roots := rs } : World).rootVals ++ [v] := by
-  simp [World.rootVals, List.filterMap_append]
-
-theorem rootVals_append_none (env : Env) (n : Nat) (rs : List (Option Val)) :
-    ({ env := env, next := n, roots := rs ++ [none] } : World).rootVals
-      = ({ env := env, next := n, roots := rs } : World).rootVals := by
-  simp [World.rootVals, List.filterMap_append]
-
-theorem mem_rootIds_append {env : Env} {n : Nat} {rs : List (Option Val)} {v : Val} {i : Nat} :
-    i ∈ ({ env := env, next := n, roots := rs ++ [some v] } : World).rootIds
-      ↔ i ∈ ({ env := env, next := n, roots := rs } : World).rootIds ∨ i ∈ v.mutIds := by
-  simp [World.rootIds, rootVals_append, mutIdsL_append, mutIdsL]
-
 theorem mem_rootIds_push {w : World} {v : Val} {i : Nat} :
     i ∈ ({ w with roots := w.roots ++ [some v] } : World).rootIds ↔ i ∈ w.rootIds ∨ i ∈ v.mutIds := by
-  cases w; exact mem_rootIds_append
+  simp [World.rootIds, World.rootVals, List.filterMap_append, mutIdsL_append, mutIdsL]
 
 theorem mem_rootIds_push_none {w : World} {i : Nat} :
     i ∈ ({ w with roots := w.roots ++ [none] } : World).rootIds ↔ i ∈ w.rootIds := by
-  cases w; simp [World.rootIds, rootVals_append_none]
+  simp [World.rootIds, World.rootVals, List.filterMap_append]
 
 /-- what `step` does on a parse, in a well-formed world: although every logged in-place write is applied
 to the declarations, to all earlier roots and to the input, nothing of that changes. -/
@@ -193,8 +184,10 @@ theorem step_call (w : World) (hw : WF w) (target wrapper bump : Nat) (input : V
     (hin : ∀ i ∈ input.mutIds, i < w.next + bump) :
     w.step (.call target wrapper bump input ro) =
       (match w.callResult target wrapper bump input ro with
-       | (.ok r, s1) => ({ w with next := s1.next, roots := w.roots ++ [some input] ++ [some r] }, Outcome.ok)
-       | (.error e, s1) => ({ w with next := s1.next, roots := w.roots ++ [some input] ++ [none] }, Outcome.ofErr e)) := by
+       | (.ok r, s1) => ({ w with next := s1.next, roots := w.roots ++ [some input] ++ [some r],
+                                   proc := w.procAfter target }, Outcome.ok)
+       | (.error e, s1) => ({ w with next := s1.next, roots := w.roots ++ [some input] ++ [none],
+                                      proc := w.procAfter target }, Outcome.ofErr e)) := by
   have hfr := C19_call_frame w target wrapper bump input ro
   simp only at hfr
   have happ : ∀ ws : List Nat, (∀ i ∈ ws, w.next + bump ≤ i) →
@@ -340,6 +333,10 @@ theorem root_mem (w : World) (r : Nat) (v : Val) (h : w.root r = some v) : some 
     subst h
     exact List.mem_of_getElem? hr
 
+/-- well-formedness does not look at the process state -/
+theorem WF_proc {w : World} (h : WF w) (p : Proc) : WF { w with proc := p } :=
+  ⟨h.decl_lt, h.root_lt, h.iso⟩
+
 theorem step_setattr (w : World) (r : Nat) (fname : String) (v : Val) :
     w.step (.setattr r fname v) =
       (match w.root r with
@@ -414,9 +411,9 @@ theorem step_WF (w : World) (hw : WF w) (hs : InScope w.env) (op : Op) (hv : op.
       have hw1 : WF { w with next := s1.next, roots := w.roots ++ [some input] } :=
         WF_push w hw s1.next (by have := hfr.1; omega) input (fun i hi => by have := hin i hi; have := hfr.1; omega) hnd
       cases r with
-      | error e => exact ⟨WF_push_none _ hw1 s1.next (Nat.le_refl _), Or.inl rfl⟩
+      | error e => exact ⟨WF_proc (WF_push_none _ hw1 s1.next (Nat.le_refl _)) _, Or.inl rfl⟩
       | ok v =>
-        refine ⟨WF_push _ hw1 s1.next (Nat.le_refl _) v (fun i hi => ?_) (fun i hi hd => ?_), Or.inl rfl⟩
+        refine ⟨WF_proc (WF_push _ hw1 s1.next (Nat.le_refl _) v (fun i hi => ?_) (fun i hi hd => ?_)) _, Or.inl rfl⟩
         · rcases hfr.2.2 v rfl i hi with h | h | h
           · have := hin i h; have := hfr.1; omega
           · simp [hleak, hro] at h
@@ -521,31 +518,161 @@ theorem C19_history_preserves_declaration (ops : List Op) :
         obtain ⟨ds1, hd1⟩ := hpre
         exact ⟨⟨ds1 ++ ds2, by rw [hd2, hd1, List.append_assoc]⟩, hsc, hwf⟩
 
+/-! ### process state: the registry cache and the lazily resolved forward references
+
+`World.proc` is read by every parse (`World.callP`) and written by every parse (`World.procAfter`).  History
+independence is an invariant argument: in every reachable state the cache answers what the registrations answer and
+a parser marked "resolved" can indeed resolve — so the lookups of a parse answer as in the initial state. -/
+
+/-- the invariant of the process state -/
+structure ProcOK (w : World) : Prop where
+  cache : ∀ e ∈ w.proc.regCache, e.2 = sel e.1
+  resolved : ∀ k ∈ w.proc.resolved, ∃ d, w.env[k]? = some d ∧ d.scoped w.env.length = true
+
+theorem same_sel : ∀ (a b : Ty), a.same b = true → sel a = sel b := by
+  intro a b h
+  cases a <;> cases b <;> simp [Ty.same] at h <;> try rfl
+  · rename_i k k'; subst h; rfl
+  all_goals (try (simp [sel]))
+
+theorem resolve_eq_sel (p : Proc) (h : ∀ e ∈ p.regCache, e.2 = sel e.1) : p.resolve = sel := by
+  funext t
+  unfold Proc.resolve
+  cases hf : p.regCache.find? (fun e => e.1.same t) with
+  | none => rfl
+  | some e =>
+    simp only
+    have hm := List.mem_of_find?_eq_some hf
+    have hs := List.find?_some hf
+    rw [h e hm]
+    exact same_sel e.1 t hs
+
+theorem declScoped_mono {d : Decl} {n m : Nat} (h : d.scoped n = true) (hm : n ≤ m) : d.scoped m = true := by
+  simp only [Decl.scoped, Bool.and_eq_true, List.all_eq_true] at h ⊢
+  refine ⟨fun f hf => scoped_mono (h.1 f hf) hm, ?_⟩
+  cases hr : d.ret with
+  | none => rfl
+  | some rt => have := h.2; rw [hr] at this; exact scoped_mono this hm
+
+theorem procAfter_ok (w : World) (h : ProcOK w) (target : Nat) :
+    ProcOK { w with proc := w.procAfter target } := by
+  unfold World.procAfter
+  cases hd : w.env[target]? with
+  | none => exact ⟨h.cache, h.resolved⟩
+  | some d =>
+    refine ⟨?_, ?_⟩
+    · intro e he
+      simp only [List.mem_append, List.mem_map] at he
+      rcases he with ⟨f, _, rfl⟩ | he
+      · simp only; rw [resolve_eq_sel w.proc h.cache]
+      · exact h.cache e he
+    · intro k hk
+      simp only at hk
+      split at hk
+      · rename_i hsc
+        rcases List.mem_cons.mp hk with rfl | hk
+        · exact ⟨d, hd, hsc⟩
+        · exact h.resolved k hk
+      · exact h.resolved k hk
+
+theorem procOK_of_ext {w w' : World} (h : ProcOK w) (hp : w'.proc = w.proc) (he : ∃ ds, w'.env = w.env ++ ds) :
+    ProcOK w' := by
+  obtain ⟨ds, he⟩ := he
+  refine ⟨by rw [hp]; exact h.cache, ?_⟩
+  intro k hk
+  rw [hp] at hk
+  obtain ⟨d, hd, hsc⟩ := h.resolved k hk
+  have hlt : k < w.env.length := (List.getElem?_eq_some_iff.mp hd).1
+  exact ⟨d, by rw [he, List.getElem?_append_left hlt]; exact hd, declScoped_mono hsc (by rw [he]; simp)⟩
+
+theorem foldl_writeAll_proc (ps : List (Nat × (Kind → List String → List Val → Option (List String × List Val)))) :
+    ∀ w : World, (ps.foldl (fun w p => w.writeAll p.1 p.2) w).proc = w.proc := by
+  induction ps with
+  | nil => intro w; rfl
+  | cons p ps ih => intro w; simp only [List.foldl]; rw [ih]; rfl
+
+/-- only a parse writes the process state -/
+theorem step_proc_eq (w : World) (op : Op) (h : ∀ t wr b i ro, op ≠ .call t wr b i ro) :
+    (w.step op).1.proc = w.proc := by
+  cases op with
+  | call t wr b i ro => exact absurd rfl (h t wr b i ro)
+  | declare d bump => rfl
+  | mutate i act => rfl
+  | setattr r fname v =>
+    rw [step_setattr]
+    split
+    · split
+      · exact foldl_writeAll_proc _ w
+      · rfl
+    · rfl
+  | copy r =>
+    rw [step_copy]
+    split
+    · split <;> rfl
+    · rfl
+
+/-- the process state stays within the invariant along every step (declaring more classes included) -/
+theorem step_procOK (w : World) (hw : WF w) (hs : InScope w.env) (h : ProcOK w) (op : Op) (hv : op.Valid w) :
+    ProcOK (w.step op).1 := by
+  have hext : ∃ ds, (w.step op).1.env = w.env ++ ds := by
+    rcases (step_WF w hw hs op hv).2 with he | ⟨d, he, _⟩
+    · exact ⟨[], by simp [he]⟩
+    · exact ⟨[d], he⟩
+  cases op with
+  | call target wrapper bump input ro =>
+    rw [step_call w hw target wrapper bump input ro hv.1]
+    have hp := procAfter_ok w h target
+    cases hr : w.callResult target wrapper bump input ro with
+    | mk r s1 =>
+      cases r with
+      | ok v => exact ⟨hp.cache, hp.resolved⟩
+      | error e => exact ⟨hp.cache, hp.resolved⟩
+  | declare d bump => exact procOK_of_ext h (step_proc_eq w _ (by intros; simp)) hext
+  | mutate i act => exact procOK_of_ext h (step_proc_eq w _ (by intros; simp)) hext
+  | setattr r fname v => exact procOK_of_ext h (step_proc_eq w _ (by intros; simp)) hext
+  | copy r => exact procOK_of_ext h (step_proc_eq w _ (by intros; simp)) hext
+
+/-- along every valid history: declarations only grow at the end, the world stays well-formed and in scope
+(`C19_history_preserves_declaration`), and the process state stays within its invariant -/
+theorem run_procOK (ops : List Op) :
+    ∀ (w : World), WF w → InScope w.env → ProcOK w → ValidHist w ops → ProcOK (w.run ops).1 := by
+  induction ops with
+  | nil => intro w _ _ h _; exact h
+  | cons op ops ih =>
+    intro w hw hs h hv
+    obtain ⟨h1, h2⟩ := step_WF w hw hs op hv.1
+    have hs1 : InScope (w.step op).1.env := by
+      unfold InScope at hs ⊢
+      rcases h2 with he | ⟨d, he, hl⟩
+      · rw [he]; exact hs
+      · rw [he, leak_append, hs, hl]; rfl
+    have := ih (w.step op).1 h1 hs1 (step_procOK w hw hs h op hv.1) hv.2
+    unfold World.run World.runWith
+    cases hst : World.step w op with
+    | mk w1 o =>
+      rw [hst] at this
+      simp only
+      cases hrun : World.runWith World.step w1 ops with
+      | mk w2 os =>
+        have e : World.run w1 ops = (w2, os) := hrun
+        rw [e] at this
+        exact this
+
 /-- **What a declaration accepts is fixed by its own declaration.**  Declaring further classes — a subclass of
 an earlier class with other Options (`case_insensitive`, …), a variant, another function — leaves every parse of
 an earlier declaration exactly what it was: for an environment `E` without dangling forward references
 (`Env.closed`), a target of `E` parses the same in `E` and in `E ++ ds`, for every `ds`. -/
 theorem C19_declaration_independent (w : World) (ds : Env) (hE : w.env.closed = true)
     (target : Nat) (ht : target < w.env.length) (wrapper bump : Nat) (input : Val) (ro : ROpts) :
-    ({ w with env := w.env ++ ds } : World).callResult target wrapper bump input ro
-      = w.callResult target wrapper bump input ro := by
-  unfold World.callResult
-  exact callWith_append effectiveOpts ro w.env ds hE target ht wrapper _ _ _
-
-/-- **The outcome of a parse depends only on the declaration, the options and the input.**  After any
-valid history (earlier parses that succeeded or failed under whatever running options, caller mutations,
-attribute assignments, copies, further declarations), a parse of a declaration that existed at the start
-returns exactly what it returns in the initial world with the allocator at the same position — same
-success or failure, same value, same aliasing with its input. -/
-theorem C19_history_independent (ops : List Op) (w : World) (hw : WF w) (hs : InScope w.env)
-    (hE : w.env.closed = true) (hv : ValidHist w ops)
-    (target : Nat) (ht : target < w.env.length) (wrapper bump : Nat) (input : Val) (ro : ROpts) :
-    (w.run ops).1.callResult target wrapper bump input ro
-      = ({ w with next := (w.run ops).1.next } : World).callResult target wrapper bump input ro := by
-  obtain ⟨ds, hds⟩ := (C19_history_preserves_declaration ops w hw hs hv).1
-  unfold World.callResult
-  rw [hds]
-  exact callWith_append effectiveOpts ro w.env ds hE target ht wrapper _ _ _
+    ({ w with env := w.env ++ ds } : World).callSpec target wrapper bump input ro
+      = w.callSpec target wrapper bump input ro := by
+  unfold World.callSpec
+  rw [callWith_append declaredOpts sel ro w.env ds hE target ht wrapper _ _ _ false]
+  -- in a closed environment the forward references of the target resolve: checking now or having checked is the same
+  have h0 := callWith_append declaredOpts sel ro w.env [] hE target ht wrapper
+    (entriesOf input).1 (entriesOf input).2 { next := w.next + bump } false
+  simp only [List.append_nil] at h0
+  exact h0.symm
 
 /-! ### the `__parsers__` cache (known finding `parser-cache-options`)
 
@@ -613,12 +740,63 @@ def envW : Env := [{ kind := .func, fields := [{ name := "a", ty := .int, dflt :
 
 /-- … and at the level of outcomes: `f2('12')` fails although `f2` was declared without options. -/
 theorem C19_stale_options_outcome_witness :
-    (callWith effectiveOpts {} envW 0 1 ["a"] [.str "12"] { next := 0 }).1.isOk = false ∧
-    (callWith declaredOpts {} envW 0 1 ["a"] [.str "12"] { next := 0 }).1.isOk = true := by decide
+    (callWith effectiveOpts sel false {} envW 0 1 ["a"] [.str "12"] { next := 0 }).1.isOk = false ∧
+    (callWith declaredOpts sel false {} envW 0 1 ["a"] [.str "12"] { next := 0 }).1.isOk = true := by decide
 
 /-- non-vacuity: declarations outside the defect exist -/
 example : KnownDefect.staleParserOptions [none, some { strict := true }] 1 = false ∧
     KnownDefect.staleParserOptions [none, none] 1 = false := by decide
+
+theorem callWith_opts_congr (o1 o2 : List (Option Opts) → Nat → Opts) (L : Ty → Cid) (rb : Bool) (ro : ROpts) (E : Env)
+    (target wrapper : Nat) (ks : List String) (xs : List Val) (s : St)
+    (h : ∀ d, E[target]? = some d → d.kind = .func → o1 d.wrappers wrapper = o2 d.wrappers wrapper) :
+    callWith o1 L rb ro E target wrapper ks xs s = callWith o2 L rb ro E target wrapper ks xs s := by
+  simp only [callWith]
+  cases hd : E[target]? with
+  | none => rfl
+  | some d =>
+    simp only
+    split
+    · rfl
+    · split
+      · rename_i hk
+        have hk' : d.kind = .func := by simpa using hk
+        rw [h d hd hk']
+      · rfl
+
+/-- **The outcome of a parse depends only on the declaration, the options and the input** — outside the known
+defect.  Full statement (false of the unchanged code, `C19_stale_options_outcome_witness`): the same without `hk`.
+
+After any valid history — earlier parses that succeeded or failed under whatever running options (each of which read
+and wrote the registry cache and the forward-reference state), caller mutations, attribute assignments, copies, further
+declarations — a parse of a declaration that existed at the start returns exactly what the declarations alone define
+(`callSpec`: registry without cache, forward references unresolved, wrapper bound to its declared options), with the
+allocator at the same position.  `hk`: the wrapper is not one that `apply_for` served from the `__parsers__` cache with
+another decoration's options. -/
+theorem C19_history_independent_partial (ops : List Op) (w : World) (hw : WF w) (hs : InScope w.env)
+    (hE : w.env.closed = true) (hp : ProcOK w) (hv : ValidHist w ops)
+    (target : Nat) (ht : target < w.env.length) (wrapper bump : Nat) (input : Val) (ro : ROpts)
+    (hk : ∀ d, w.env[target]? = some d → d.kind = .func →
+      wrapper < d.wrappers.length ∧ KnownDefect.staleParserOptions d.wrappers wrapper = false) :
+    (w.run ops).1.callResult target wrapper bump input ro
+      = ({ w with next := (w.run ops).1.next } : World).callSpec target wrapper bump input ro := by
+  obtain ⟨ds, hds⟩ := (C19_history_preserves_declaration ops w hw hs hv).1
+  have hpo := run_procOK ops w hw hs hp hv
+  unfold World.callResult World.callP World.callSpec
+  rw [hds, resolve_eq_sel _ hpo.cache,
+    callWith_append effectiveOpts sel ro w.env ds hE target ht wrapper _ _ _ _]
+  have h0 := callWith_append declaredOpts sel ro w.env [] hE target ht wrapper
+    (entriesOf input).1 (entriesOf input).2 { next := (w.run ops).1.next + bump } false
+  simp only [List.append_nil] at h0
+  rw [h0]
+  exact callWith_opts_congr _ _ sel true ro w.env target wrapper _ _ _
+    (fun d hd hf => C19_wrapper_options_partial d.wrappers wrapper (hk d hd hf).1 (hk d hd hf).2)
+
+/-- the hypotheses are satisfiable in the initial state: nothing cached, nothing resolved -/
+theorem procOK_init (w : World) (h : w.proc = {}) : ProcOK w := by
+  refine ⟨?_, ?_⟩
+  · intro e he; rw [h] at he; simp at he
+  · intro k hk; rw [h] at hk; simp at hk
 
 /-! ### `Schema.copy()` (fixed finding `copy-shares-dict`) -/
 
@@ -739,5 +917,28 @@ def hist1 : List Op :=
 example : env0.closed = true := by decide
 example : (w0.run hist1).2 = [.ok, .ok, .ok, .perr] := by decide +kernel
 example : ValidHist w0 hist1 := by decide +kernel
+
+/-- the initial world of the examples satisfies the process-state invariant, and so does the world after `hist1` -/
+example : ProcOK w0 := procOK_init w0 rfl
+example : (w0.run hist1).1.proc.resolved = [0, 0, 0] ∧ (w0.run hist1).1.proc.regCache.length = 6 := by decide +kernel
+
+/-! ### the write clause excludes something
+
+An in-place write is logged under the identity its *target value* carries.  Had `__init__` filled the caller's
+positional dict instead of its own kwargs (`_d.setdefault(key, val)` — the seeded change C19-B), or a lax length
+validator popped items off the validated object (C19-r2-C), the model step would be `fill input …`, and the write
+conjunct of `C19_call_frame` would be false: -/
+theorem C19_inplace_write_hits_its_target (i : Nat) (k : Kind) (ks0 ks : List String) (xs0 xs : List Val) (s : St) :
+    i ∈ (fill (.node i k ks0 xs0) ks xs s).2.writes ∧ (fill (.node i k ks0 xs0) ks xs s).2.next = s.next := by
+  simp [fill]
+
+/-- … so a computation that fills an object it was *given* (any id below the allocator) violates the frame -/
+theorem C19_write_to_argument_violates_frame (i : Nat) (k : Kind) (ks : List String) (xs : List Val) (s : St)
+    (hi : i < s.next) (hw : i ∉ s.writes) :
+    ¬ (∀ j ∈ (fill (.node i k [] []) ks xs s).2.writes, j ∈ s.writes ∨ s.next ≤ j) := by
+  intro h
+  rcases h i (by simp [fill]) with h' | h'
+  · exact hw h'
+  · omega
 
 end Utv.C19
